@@ -33,6 +33,7 @@ from verif.reflang import SyntaxFail, Unspecified
 from mesonbuild import mformat, mparser, mlog
 from mesonbuild.mesonlib import MesonException
 from mesonbuild.ast.printer import AstJSONPrinter
+from mesonbuild.ast.visitor import FullAstVisitor
 
 # ============================================================================================================
 # Configurations.  A configuration is a dict option -> value (unset options are left to the defaults); it is turned
@@ -257,7 +258,13 @@ def raw_violations(src, cfg, ref=True):
                 viols.append(('tree', d))
             ca, cb = [c.rstrip() for c in comments], [c.rstrip() for c in comments2]
             if ca != cb:
-                viols.append(('comments', (ca, cb)))
+                # unspecified corner: sort_files moves the arguments of files() and the comments attached to them; the
+                # order of those comments is not compared (only if the order is kept with sort_files off)
+                if sort_files and sorted(ca) == sorted(cb) and has_files(src) and \
+                        comments_of(real_format(src, dict(cfg, sort_files=False))) == ca:
+                    info['comment_order_unspecified'] = True
+                else:
+                    viols.append(('comments', (ca, cb)))
     else:
         # the real parser judges itself
         try:
@@ -301,7 +308,27 @@ def still(kind, src, cfg, ref=True):
 
 
 ML_BACKSLASH = re.compile(r"'''(?:(?!''')[^\n'])*\\(?:(?!''')[^\n'])*'''")
-FILES_RE = re.compile(r'\bfiles((?:\s|\\[ \t]*(?:#[^\n]*)?\n)*\()')
+
+
+def rename_files(src):
+    """files -> filez for every identifier token `files` (switches the files() special cases off)."""
+    out = []
+    i = 0
+    hit = False
+    for m in reflang._TOK.finditer(src):
+        if m.start() != i:
+            return None
+        t = m.group()
+        if m.lastgroup == 'id' and t == 'files':
+            t = 'filez'
+            hit = True
+        out.append(t)
+        i = m.end()
+    return ''.join(out) if hit and i == len(src) else None
+
+
+def has_files(src):
+    return rename_files(src) is not None
 
 
 def neutralise_ml_backslash(src):
@@ -343,28 +370,38 @@ def call_in_parens(src):
     return False
 
 
-OPERAND_NODES = {'AssignmentNode', 'PlusAssignmentNode', 'ArithmeticNode', 'ComparisonNode', 'AndNode', 'OrNode', 'NotNode',
-                 'UMinusNode', 'TernaryNode', 'IndexNode', 'MethodNode', 'IfNode', 'ForeachClauseNode'}
+class _EmptyParens(FullAstVisitor):
+    def __init__(self):
+        self.found = False
+
+    def visit_ParenthesizedNode(self, node):
+        if isinstance(node.inner, mparser.EmptyNode):
+            self.found = True
+        super().visit_ParenthesizedNode(node)
 
 
 def missing_operand(src):
-    """The real parser accepted an operator / assignment with nothing in an operand position (EmptyNode)."""
+    """'empty-parens' / 'missing-operand' / None: the real parser accepted `()` around nothing, or an operator / assignment
+    / foreach with nothing in an operand position (EmptyNode anywhere but as the absent else block of an if)."""
     try:
+        ast = mparser.Parser(src, 'meson.build').parse()
+        v = _EmptyParens()
+        ast.accept(v)
+        if v.found:
+            return 'empty-parens'
         t = real_tree(src)
     except Exception:
-        return False
+        return None
 
-    def rec(d):
+    def rec(d, key=None):
         if isinstance(d, dict):
-            if d.get('node') in OPERAND_NODES:
-                for k, v in d.items():
-                    if isinstance(v, dict) and v.get('node') == 'EmptyNode' and k != 'block':
-                        return True
-            return any(rec(v) for v in d.values())
+            if d.get('node') == 'EmptyNode' and key != 'else':
+                return True
+            return any(rec(v, k) for k, v in d.items())
         if isinstance(d, list):
-            return any(rec(x) for x in d)
+            return any(rec(x, key) for x in d)
         return False
-    return rec(t)
+    return 'missing-operand' if rec(t) else None
 
 
 def idem_causes(src, cfg):
@@ -379,14 +416,14 @@ def idem_causes(src, cfg):
                        'no_single_comma_function: the run that removes the comma of a single-argument call keeps it multi-line, '
                        'the next run joins it',
                        lambda s, c: (s, dict(c, no_single_comma_function=False))))
-    if FILES_RE.search(src):
+    if has_files(src):
         if cfg.get('sort_files'):
             causes.append(('files-sort-after-flatten',
                            'sort_files: files([...]) is flattened by the first run and only sorted by the next one',
                            lambda s, c: (s, dict(c, sort_files=False))))
         if nested_files(src):
             causes.append(('files-nested-flatten', 'files([[...]]) loses one array level per format run',
-                           lambda s, c: (FILES_RE.sub(r'filez\1', s), c)))
+                           lambda s, c: (rename_files(s), c)))
     return causes
 
 
@@ -401,10 +438,10 @@ def classify(kind, detail, src, cfg, out, ref=True):
     simplify = cfg.get('simplify_string_literals', True)
     if kind == 'crash':
         return fam + 'crash:' + detail.replace('second pass: ', '').split(':')[0].strip(), 'formatter raised ' + detail
-    if kind in ('unparseable', 'tree'):
+    if kind in ('unparseable', 'tree', 'output-unspecified'):
         # suspect 8: a multiline string without newline/quote but with a backslash is simplified
         if simplify and ML_BACKSLASH.search(src) and not still(kind, neutralise_ml_backslash(src), cfg, ref):
-            return ('C16:mlstring-backslash:' + kind,
+            return ('C16:mlstring-backslash:' + ('tree' if kind == 'tree' else 'unparseable'),
                     "'''..''' holding a backslash is rewritten to '..' where the backslash starts an escape")
     if kind == 'comments':
         ca, cb = detail
@@ -417,7 +454,7 @@ def classify(kind, detail, src, cfg, out, ref=True):
         else:
             sub = 'changed'
         # suspect 16: the comment hangs off the brackets of the array that files([...]) flattening removes
-        if sub == 'lost' and FILES_RE.search(src) and not still('comments', FILES_RE.sub(r'filez\1', src), cfg, ref):
+        if sub == 'lost' and has_files(src) and not still('comments', rename_files(src), cfg, ref):
             return ('C16:comments:lost:files-flatten',
                     'comment attached to the brackets of the array in files([...]) is dropped by the flattening')
     if kind == 'idem':
@@ -437,10 +474,14 @@ def classify(kind, detail, src, cfg, out, ref=True):
             return ('C16:idem:indent-only:call-in-multiline-parens',
                     'a call with split arguments inside a multi-line parenthesised expression is re-indented by every further run')
     # not explained by a known mechanism
-    if not ref and missing_operand(src):
+    mo = missing_operand(src) if not ref else None
+    if mo == 'missing-operand':
         return ('C16:illformed:missing-operand:' + kind,
                 'ill-formed input accepted by the parser (operator or assignment without operand before a newline): formatting '
                 'joins the next line to it')
+    if mo == 'empty-parens':
+        return ('C16:illformed:empty-parens:' + kind,
+                'ill-formed input accepted by the parser (parentheses around nothing): every format run adds a blank line inside')
     if kind == 'tree':
         if not ref:
             return fam + 'tree', 'the real parser reads a different program from the formatted text'
@@ -478,7 +519,10 @@ def judge(src, cfg, ref=True):
     if st == 'ref_rejects' and ref:
         return st, [], None
     if st != 'viol':
-        return st, [], (outcome_class(src, out) if st == 'ok' else None)
+        cls = outcome_class(src, out) if st == 'ok' else None
+        if cls and info.get('comment_order_unspecified'):
+            cls = cls + ('comment-order-unspecified',)
+        return st, [], cls
     res = []
     for kind, detail in viols:
         res.append(classify(kind, detail, src, cfg, out, ref))
@@ -852,6 +896,9 @@ def summarise(results):
         s['n'] += 1
         if st == 'ok':
             s['ok'] += 1
+            if cls[-1] == 'comment-order-unspecified':
+                cls = cls[:-1]
+                s['skip']['clause_comment_order_under_sort_files'] = s['skip'].get('clause_comment_order_under_sort_files', 0) + 1
             s['classes'].add(cls)
             if cls != ('fixed-point',):
                 s['changed'] += 1
@@ -1161,7 +1208,7 @@ def cli_case(src, file_nl, cfg, tag):
         cli(['-c', cf, '--output', o, f])
         outb = get(o)
     except MesonException:
-        return 'impl_rejects', []
+        return 'impl_rejects', [], {}
     would_change = written != data
     info = 'file_nl=%r end_of_line=%r' % (file_nl, cfg.get('end_of_line'))
     if (rc_check == 1) != would_change:
@@ -1173,7 +1220,12 @@ def cli_case(src, file_nl, cfg, tag):
                 rc_check, 'changes' if would_change else 'does not change', info)))
     if rc_diff != rc_check:
         viols.append(('check-diff:status', '--check-diff exit %d but --check-only exit %d (%s)' % (rc_diff, rc_check, info)))
-    if written2 != written:
+    try:
+        f1 = real_format(src, cfg)
+        inproc_fixed = real_format(f1, cfg) == f1
+    except MesonException:
+        inproc_fixed = False
+    if written2 != written and inproc_fixed:      # (a missing in-process fixed point is reported by the other parts)
         viols.append(('inplace:not-idempotent', 'a second --inplace run rewrites the file again (%s)' % info))
     if outb != written:
         viols.append(('output-vs-inplace', '--output and --inplace write different bytes (%s)' % info))
@@ -1185,7 +1237,7 @@ def cli_case(src, file_nl, cfg, tag):
             viols.append(('inplace:bytes', '--inplace bytes are not format() with end_of_line applied (%s)' % info))
     except MesonException:
         pass
-    return ('viol' if viols else 'ok'), viols
+    return ('viol' if viols else 'ok'), viols, {'crlf': b'\r\n' in written, 'changed': would_change, 'rc': rc_check}
 
 
 CLI_PROGRAMS = [
@@ -1202,8 +1254,8 @@ CLI_PROGRAMS = [
 
 def w_cli(item):
     idx, src, file_nl, cfg = item
-    st, viols = cli_case(src, file_nl, cfg, 'c%d' % (idx % 64))
-    return src, file_nl, cfg, st, viols
+    st, viols, info = cli_case(src, file_nl, cfg, 'c%d' % (idx % 64))
+    return src, file_nl, cfg, st, viols, info
 
 
 # ============================================================================================================
@@ -1337,6 +1389,12 @@ def main():
     if T:
         fam_trivia('trivia:skel:dev2:cfgB', 'skel', (2,), False, CORPUS_CFGS[1])
         fam_trivia('trivia:skel:dev2:cfgC', 'skel', (2,), False, CORPUS_CFGS[3])
+        fam_trivia('trivia:s1:dev2', 's1', (2,), False)
+        fam_trivia('trivia:s2:dev1:cfgB', 's2', (1,), False, CORPUS_CFGS[1])
+        fam_trivia('trivia:s2:dev1:cfgC', 's2', (1,), False, CORPUS_CFGS[3])
+        PROGS['triple'] = [('+'.join(n for n, _ in tup), [t for _, toks in tup for t in toks])
+                           for tup in itertools.product(pool[:8], repeat=3)]
+        fam_trivia('trivia:triple:dev1', 'triple', (1,), True)
     else:
         fam_trivia('trivia:skel:dev1:cfgB', 'skel', (1,), True, CORPUS_CFGS[1])
         fam_trivia('trivia:skel:dev1:cfgC', 'skel', (1,), True, CORPUS_CFGS[3])
@@ -1363,6 +1421,9 @@ def main():
         D[name] = s
 
     fam_sources('strings', gen_strings(ck.q(3, 4)), [{}, {'simplify_string_literals': False}] if T else [{}])
+    if 'strings' in D:
+        kinds = {k for c in D['strings']['classes'] if len(c) == 4 for k in c[3]}
+        ck.require({'ml', 'f'} <= kinds, 'no string literal was simplified in the strings family (%r)' % kinds)
 
     # ---- (2) long argument lists -----------------------------------------------------------------------------
     if ck.want('longargs'):
@@ -1394,7 +1455,21 @@ def main():
         items = [(QUICK_PROGRAMS, cfgs[i:i + 8]) for i in range(0, len(cfgs), 8)]
         s = run_items(w_sources, items)
         report(ck, 'configs', s)
-        ck.part('configs', configurations=len(cfgs), programs=len(QUICK_PROGRAMS))
+        # anti-vacuity: every option of the product changes the output of at least one program of the set
+        effect = {}
+        for o in BOOL_OPTS + ['max_line_length', 'indent_by']:
+            base = {'indent_by': '\t', 'max_line_length': 20} if o == 'use_editor_config' else {}
+            alt = dict(base)
+            alt[o] = {'max_line_length': 20, 'indent_by': '\t'}.get(o, o not in DEFAULT_TRUE)
+            n = 0
+            for prog in QUICK_PROGRAMS:
+                try:
+                    n += real_format(prog, base) != real_format(prog, alt)
+                except MesonException:
+                    pass
+            effect[o] = n
+        ck.part('configs', configurations=len(cfgs), programs=len(QUICK_PROGRAMS), programs_affected_by_option=effect)
+        ck.require(all(v > 0 for v in effect.values()), 'an option of the product never changes any output: %r' % effect)
         D['configs'] = s
     if T and ck.want('configs-pairwise'):
         rows, uncovered = pairwise_configs()
@@ -1453,8 +1528,13 @@ def main():
         n = rc1 = rc0 = 0
         vc = {}
         skipped = 0
-        for src, file_nl, cfg, st, viols in pmap(w_cli, items, chunksize=8):
+        seen = {'crlf': 0, 'changed': 0, 'unchanged': 0, 'rc1': 0, 'rc0': 0}
+        for src, file_nl, cfg, st, viols, info in pmap(w_cli, items, chunksize=8):
             n += 1
+            if info:
+                seen['crlf'] += info['crlf']
+                seen['changed' if info['changed'] else 'unchanged'] += 1
+                seen['rc1' if info['rc'] else 'rc0'] += 1
             if st == 'impl_rejects':
                 skipped += 1
                 continue
@@ -1466,13 +1546,17 @@ def main():
                 if vc[key] <= 2:
                     ck.violation(key, '%s | input %r | config %s' % (what, src, cfg_key(cfg)),
                                  {'src': src, 'cfg': cfg, 'file_nl': file_nl, 'family': 'cli'})
-        ck.part('cli', cases=n, real_cli_runs=n * 5, skipped_impl_rejects=skipped, violation_counts=dict(sorted(vc.items())))
+        ck.part('cli', cases=n, real_cli_runs=n * 5, skipped_impl_rejects=skipped, violation_counts=dict(sorted(vc.items())), **seen)
+        ck.require(min(seen.values()) > 0, 'CLI part did not see every outcome: %r' % seen)
         evaluations += n * 5
         classes.add(('cli', 'ok'))
         for k in vc:
             classes.add(('cli', k))
 
     # ---- totals ----------------------------------------------------------------------------------------------
+    feats = {f for name, s in D.items() if name.startswith('trivia:') for c in s['classes'] if len(c) == 4 for f in c[2]}
+    if not ck.args.only:
+        ck.require({'cont', 'cmt', 'ml', 'files', 'if', 'for'} <= feats, 'trivia families lack a feature: %r' % feats)
     for name, s in D.items():
         evaluations += s['n']
         classes |= {c for c in s['classes'] if c != ('fixed-point',)}
@@ -1485,9 +1569,10 @@ def main():
             skips[k] = skips.get(k, 0) + v
     if not ck.args.only:
         ck.require(changed > 1000 and fixed_points > 100, 'formatter never changed / never kept an input (%d/%d)' % (changed, fixed_points))
-        tr = D.get('trivia:s1:dev01')
-        ck.require(tr['skip'].get('ref_rejects', 0) == 0,
-                   'the legal-trivia generator produced text the reference parser rejects (%r)' % tr['skip'])
+        for name, tr in D.items():
+            if name.startswith('trivia:'):
+                ck.require(tr['skip'].get('ref_rejects', 0) == 0,
+                           'the legal-trivia generator produced text the reference parser rejects (%s: %r)' % (name, tr['skip']))
     ck.sample({'trivia variant': next(itertools.islice(variants(skels[0][1], 2, False), 40, None)),
                'formatted': real_format(next(itertools.islice(variants(skels[0][1], 2, False), 40, None)), {})})
     ck.sample({'longargs': gen_longargs([20])[5], 'formatted@20': real_format(gen_longargs([20])[5], {'max_line_length': 20})})
@@ -1514,7 +1599,7 @@ def replay(ck):
     cfg = d.get('cfg') or {}
     work_dirs()
     if d.get('family') == 'cli':
-        st, viols = cli_case(d['src'], d['file_nl'], cfg, 'replay')
+        st, viols, _ = cli_case(d['src'], d['file_nl'], cfg, 'replay')
         print('cli case', repr(d['src']), 'file_nl', repr(d['file_nl']), 'config', cfg_key(cfg))
         print('expected: --check-only/--check-diff exit 1 iff --inplace changes the bytes; observed:', st, viols)
         sys.exit(1 if st == 'viol' else 0)
